@@ -192,22 +192,46 @@ func jsonldConfig(o Opts) jsonld.DecoderConfig {
 	return c
 }
 
-// build constructs the decoder. An error here (constructor or HTML document parse) is a verdict
-// "error" of the run.
+// build constructs the decoder from freshly built option values. An error here (constructor or HTML
+// document parse) is a verdict "error" of the run.
 func build(format string, o Opts, r io.Reader) (iterator, error) {
+	return newMaker(format, o, "")(r)
+}
+
+// maker: option values (and, for the reuse variants, a factory / registry) built ONCE; every call
+// constructs one more decoder from them (reuse.go).
+type maker func(r io.Reader) (iterator, error)
+
+// newMaker builds the option values of (format, o) and returns the constructor closure. variant ""
+// is the plain configuration of the single-run families; the reuse variants ("opts", "opts+bn",
+// "factory", see reuse.go) additionally pass every setter that takes a mutable argument.
+func newMaker(format string, o Opts, variant string) maker {
+	x := reuseExtras(format, variant)
 	switch format {
 	case "nt":
 		c := ntriples.DecoderConfig{}
 		if o.Offsets {
 			c = c.SetCaptureTextOffsets(true)
 		}
-		return ntriples.NewDecoder(r, c)
+		if x.bn != nil {
+			c = c.SetBlankNodeStringFactory(x.bn)
+		}
+		if x.registry {
+			return registryMaker(format, o, func(in any) (any, error) { return append(in.([]ntriples.DecoderOption), c), nil })
+		}
+		return func(r io.Reader) (iterator, error) { return ntriples.NewDecoder(r, c) }
 	case "nq":
 		c := nquads.DecoderConfig{}
 		if o.Offsets {
 			c = c.SetCaptureTextOffsets(true)
 		}
-		return nquads.NewDecoder(r, c)
+		if x.bn != nil {
+			c = c.SetBlankNodeStringFactory(x.bn)
+		}
+		if x.registry {
+			return registryMaker(format, o, func(in any) (any, error) { return append(in.([]nquads.DecoderOption), c), nil })
+		}
+		return func(r io.Reader) (iterator, error) { return nquads.NewDecoder(r, c) }
 	case "ttl":
 		c := turtle.DecoderConfig{}
 		if o.Offsets {
@@ -216,7 +240,26 @@ func build(format string, o Opts, r io.Reader) (iterator, error) {
 		if o.Base {
 			c = c.SetDefaultBase(baseIRI)
 		}
-		return turtle.NewDecoder(r, c)
+		if x.prefixes != nil {
+			c = c.SetDefaultPrefixes(x.prefixes)
+		}
+		if x.bn != nil {
+			c = c.SetBlankNodeStringFactory(x.bn)
+		}
+		if x.registry {
+			return registryMaker(format, o, func(in any) (any, error) { return append(in.([]turtle.DecoderOption), c), nil })
+		}
+		if x.factory {
+			f := turtle.NewFactory(turtle.FactoryOptions{DecoderOptions: []turtle.DecoderOption{c}})
+			return func(r io.Reader) (iterator, error) {
+				d, err := f.NewDecoder(r)
+				if err != nil {
+					return nil, err
+				}
+				return d, nil
+			}
+		}
+		return func(r io.Reader) (iterator, error) { return turtle.NewDecoder(r, c) }
 	case "trig":
 		c := trig.DecoderConfig{}
 		if o.Offsets {
@@ -225,7 +268,16 @@ func build(format string, o Opts, r io.Reader) (iterator, error) {
 		if o.Base {
 			c = c.SetDefaultBase(baseIRI)
 		}
-		return trig.NewDecoder(r, c)
+		if x.prefixes != nil {
+			c = c.SetDefaultPrefixes(x.prefixes)
+		}
+		if x.bn != nil {
+			c = c.SetBlankNodeStringFactory(x.bn)
+		}
+		if x.registry {
+			return registryMaker(format, o, func(in any) (any, error) { return append(in.([]trig.DecoderOption), c), nil })
+		}
+		return func(r io.Reader) (iterator, error) { return trig.NewDecoder(r, c) }
 	case "rdfjson":
 		c := rdfjson.DecoderConfig{}
 		if o.Offsets {
@@ -234,7 +286,13 @@ func build(format string, o Opts, r io.Reader) (iterator, error) {
 		if o.Lax {
 			c = c.SetTokenizerOptions(inspectjson.TokenizerConfig{}.SetLax(true))
 		}
-		return rdfjson.NewDecoder(r, c)
+		if x.bn != nil {
+			c = c.SetBlankNodeStringFactory(x.bn)
+		}
+		if x.registry {
+			return registryMaker(format, o, func(in any) (any, error) { return append(in.([]rdfjson.DecoderOption), c), nil })
+		}
+		return func(r io.Reader) (iterator, error) { return rdfjson.NewDecoder(r, c) }
 	case "rdfxml":
 		c := rdfxml.DecoderConfig{}
 		if o.Offsets {
@@ -243,9 +301,25 @@ func build(format string, o Opts, r io.Reader) (iterator, error) {
 		if o.Base {
 			c = c.SetDefaultBase(baseIRI)
 		}
-		return rdfxml.NewDecoder(r, c)
+		if x.bn != nil {
+			c = c.SetBlankNodeStringFactory(x.bn)
+		}
+		if x.registry {
+			return registryMaker(format, o, func(in any) (any, error) { return append(in.([]rdfxml.DecoderOption), c), nil })
+		}
+		return func(r io.Reader) (iterator, error) { return rdfxml.NewDecoder(r, c) }
 	case "jsonld":
-		return jsonld.NewDecoder(r, jsonldConfig(o))
+		c := jsonldConfig(o)
+		if x.expandContext != nil {
+			c = c.SetExpandContext(x.expandContext)
+		}
+		if x.bn != nil {
+			c = c.SetBlankNodeStringFactory(x.bn)
+		}
+		if x.registry {
+			return registryMaker(format, o, func(in any) (any, error) { return append(in.([]jsonld.DecoderOption), c), nil })
+		}
+		return func(r io.Reader) (iterator, error) { return jsonld.NewDecoder(r, c) }
 	case "html":
 		c := htmldefaults.DecoderConfig{}
 		if o.Offsets {
@@ -257,7 +331,10 @@ func build(format string, o Opts, r io.Reader) (iterator, error) {
 		if o.Loader {
 			c = c.SetDocumentLoaderJSONLD(docLoader())
 		}
-		return htmldefaults.NewDecoder(r, c)
+		if x.registry {
+			return registryMaker(format, o, func(in any) (any, error) { return append(in.([]htmldefaults.DecoderOption), c), nil })
+		}
+		return func(r io.Reader) (iterator, error) { return htmldefaults.NewDecoder(r, c) }
 	case "rdfa", "microdata", "htmljsonld":
 		dc := enchtml.DocumentConfig{}
 		if o.Offsets {
@@ -266,17 +343,20 @@ func build(format string, o Opts, r io.Reader) (iterator, error) {
 		if o.Base {
 			dc = dc.SetLocation(baseIRI)
 		}
-		doc, err := enchtml.ParseDocument(r, dc)
-		if err != nil {
-			return nil, err
-		}
+		var fromDoc func(doc *enchtml.Document) (iterator, error)
 		switch format {
 		case "rdfa":
 			c := htmlrdfa.DecoderConfig{}
 			if o.Profile != 0 {
 				c = c.SetHtmlProcessingProfile(htmlrdfa.HtmlProcessingProfile(o.Profile))
 			}
-			return htmlrdfa.NewDecoder(doc, c)
+			if x.prefixes != nil {
+				c = c.SetDefaultPrefixes(x.prefixes)
+			}
+			if x.bn != nil {
+				c = c.SetBlankNodeStringFactory(x.bn)
+			}
+			fromDoc = func(doc *enchtml.Document) (iterator, error) { return htmlrdfa.NewDecoder(doc, c) }
 		case "microdata":
 			c := htmlmicrodata.DecoderConfig{}
 			if o.Lax {
@@ -285,7 +365,7 @@ func build(format string, o Opts, r io.Reader) (iterator, error) {
 			if o.Profile == 2 {
 				c = c.SetVocabularyResolver(htmlmicrodata.ItemtypeVocabularyResolver)
 			}
-			return htmlmicrodata.NewDecoder(doc, c)
+			fromDoc = func(doc *enchtml.Document) (iterator, error) { return htmlmicrodata.NewDecoder(doc, c) }
 		default:
 			c := htmljsonld.DecoderConfig{}
 			if o.Lax {
@@ -293,11 +373,25 @@ func build(format string, o Opts, r io.Reader) (iterator, error) {
 			}
 			jo := o
 			jo.Lax, jo.Base, jo.Offsets = false, false, false // those are set by the HTML wrapper itself
-			c = c.SetDecoderOptions(jsonldConfig(jo))
-			return htmljsonld.NewDecoder(doc, c)
+			jc := jsonldConfig(jo)
+			if x.expandContext != nil {
+				jc = jc.SetExpandContext(x.expandContext)
+			}
+			if x.bn != nil {
+				jc = jc.SetBlankNodeStringFactory(x.bn)
+			}
+			c = c.SetDecoderOptions(jc)
+			fromDoc = func(doc *enchtml.Document) (iterator, error) { return htmljsonld.NewDecoder(doc, c) }
+		}
+		return func(r io.Reader) (iterator, error) {
+			doc, err := enchtml.ParseDocument(r, dc)
+			if err != nil {
+				return nil, err
+			}
+			return fromDoc(doc)
 		}
 	}
-	return nil, fmt.Errorf("unknown format %q", format)
+	return func(io.Reader) (iterator, error) { return nil, fmt.Errorf("unknown format %q", format) }
 }
 
 // ---------------------------------------------------------------- canonical statements, C06 oracle
